@@ -1,0 +1,18 @@
+//go:build verif
+
+// Contracts for the Runtime Host Protocol connection (C16). Comment-only.
+// The response to a host request is a frame written by the runtime: untrusted.
+package protocol
+
+//@ func connection.call
+//@   trusted
+//@   ensures err == nil ==> result != nil
+//@   ensures err != nil ==> result == nil
+//@   note a successful call returns the decoded response body (possibly of an unexpected kind: every optional field may be nil); the frame handling behind it (goroutines, channels) is outside the sequential model
+
+//@ func connection.InitHost
+//@   props C16
+//@   safety nil
+//@   requires c != nil && hi != nil && c.logger != nil
+//@   ensures err != nil ==> result == nil
+//@   note handshake: whatever kind of response body the runtime sends to the RuntimeInfoRequest, no nil pointer is dereferenced - a body without a RuntimeInfoResponse is answered with an error, not used (seed C16_h fell through to info.ProtocolVersion)
